@@ -11,7 +11,7 @@ BOUNDS = {
              'whole-sample displacement in -(S+1)..S+1 per axis (sampled 140), sub-sample part symbolic in [0,1); fit_tilt: masks on <= 3x4 arrays, 1..2 segments, 2 pixel scales',
     'thorough': 'representations: pupils up to 3x3, 600 sampled displacements; fit_tilt: 1..3 segments',
 }
-ASSUMPTIONS = ['dispersive elements of order 1 only (scipy.optimize.leastsq / integrate.quad are not modelled)',
+ASSUMPTIONS = ['dispersive elements of order 1 symbolically; a second-order trace (scipy.optimize.leastsq / integrate.quad, not modelled) only through a concrete-only obligation evaluated at the sampled points of every run',
                'displacement = k + s with k an enumerated integer and s symbolic: s in [eps, 1-eps] for k > 0, [-1+eps, -eps] for k < 0, [-1+eps, 1-eps] for k = 0, eps = 2^-20 (displacements within eps of a discontinuity of fix() are excluded: floating point may land on either side); every other real displacement |shift| < S+2 is covered',
                'fit_tilt: |opd| <= 1 per sample for the tolerance 1e-9 of the least-squares normal equations (float pinv weights)']
 STUBS = ['numpy.linalg.lstsq: x = pinv(A) @ b with the real numpy pinv on the concrete design matrix, b symbolic']
@@ -29,11 +29,36 @@ def cfg_shift(tier, seed):
                 continue
             key = (kinds, tuple(combo))
             out.append({'order': list(combo)})
+    out.append({'order': [], 'dispersive2': True})
     return out, len(out), True
+
+
+def _dispersive2(W, lt):
+    """second-order trace (numeric branch: scipy.optimize.leastsq / integrate.quad are not modelled symbolically): a concrete-only
+    obligation, evaluated on every concrete run with the sampled coefficients and wavelengths on both sides of the reference"""
+    a, b = W.real('t2', lo=1, hi=30), W.real('t1', lo='1/4', hi=2)
+    d1, d0 = W.real('d1', lo='1/10', hi=1), W.real('d0', lo=1, hi=2)
+    lam_lo, lam_hi = W.real('lamlo', lo='1/2', hi='9/10'), W.real('lamhi', lo='11/10', hi='3/2')
+
+    def ok():
+        import numpy as _np, scipy.integrate as _si
+        dt = lt.DispersiveTilt(trace=[float(a), float(b), 0.0], dispersion=[float(d1), float(d0)])
+        for lam in (float(lam_lo) * float(d0), float(lam_hi) * float(d0), float(d0)):
+            x, y = dt.shift(wavelength=lam, xs=0.0, ys=0.0)
+            x, y = float(_np.ravel(x)[0]), float(_np.ravel(y)[0])
+            dist = (lam - float(d0)) / float(d1)
+            arc = _si.quad(lambda t: _np.sqrt(1 + (2 * float(a) * t + float(b)) ** 2), 0, x)[0]
+            if abs(y - (float(a) * x * x + float(b) * x)) > 1e-9 * (1 + abs(y)) or abs(arc - dist) > 1e-6 * (1 + abs(dist)):
+                return False
+        return True
+    W.ob_concrete('second-order dispersive element: on its trace at the signed arc length the dispersion maps to the wavelength', ok)
+    W.ob('anchor', a + b, b + a)
 
 
 def run_shift(W, cfg):
     lt = W.lentil
+    if cfg.get('dispersive2'):
+        return _dispersive2(W, lt)
     z = W.real('z', pos=True)
     lam = W.real('lam', pos=True)
     du = (W.real('dur', pos=True), W.real('duc', pos=True))
